@@ -31,6 +31,8 @@ type obligation struct {
 	Quick     tierCfg
 	Thorough  tierCfg
 	Witnesses []string
+	Solver    string // "" = z3; "cvc5" for FP-heavy obligations
+	RecursionLimits map[string]int
 	// AllowPanics: target panics on a path are findings of this property
 	// (default true: any reachable panic of the real code is reported).
 }
@@ -204,7 +206,7 @@ func cmdRun(args []string) int {
 			return 2
 		}
 		cfg := symx.Config{Workers: 16, MaxPaths: tc.MaxPaths, Unwind: tc.Unwind, MaxSteps: tc.MaxSteps, Params: tc.Params,
-			SampleModels: 8, SolverTimeoutMs: tc.SolverMs}
+			SampleModels: 8, SolverTimeoutMs: tc.SolverMs, RecursionLimits: ob.RecursionLimits, Solver: ob.Solver}
 		if *tier == "thorough" {
 			cfg.SampleModels = 32
 			if cfg.SolverTimeoutMs == 0 {
@@ -307,6 +309,8 @@ func cmdRun(args []string) int {
 						break
 					}
 					switch {
+					case nr.Crash != "":
+						why = "native crash on a path the engine passed: " + nr.Crash
 					case len(nr.Diverged) > 0:
 						why = "diverged: " + strings.Join(nr.Diverged, ",")
 					case nr.Panic != "":
@@ -385,7 +389,8 @@ func cmdRun(args []string) int {
 	ev.Coverage.Exhaustive = len(inconclusive) == 0
 	ev.Coverage.Outside = prop.Outside
 	ev.Coverage.Inconclusive = inconclusive
-	ev.Coverage.SolverS = map[string]float64{"z3": round2(float64(smt.TotalNanos) / 1e9)}
+	ev.Coverage.SolverS = map[string]float64{"all_solvers_cpu": round2(float64(smt.TotalNanos) / 1e9)}
+	ev.Coverage.Queries.Fallback = int(smt.TotalFallbacks)
 	ev.Coverage.Queries.Total = int(smt.TotalQueries)
 	ev.Coverage.LoadS = round2(l.loadS)
 	ev.Coverage.ReplayBuildS = round2(rp.BuildS)
@@ -535,8 +540,9 @@ type pathCounts struct {
 }
 
 type queryCounts struct {
-	Total   int `json:"total"`
-	Unknown int `json:"unknown"`
+	Total    int `json:"total"`
+	Unknown  int `json:"unknown"`
+	Fallback int `json:"answered_by_fallback_solver"`
 }
 
 func writeEvidence(ev *evidence) error {
